@@ -1,68 +1,528 @@
+mod driver;
+mod facts;
+mod gen;
+mod gen_cli;
+mod known;
 mod obs;
+mod oracle;
+mod oracle_run;
+mod real;
+mod runcli;
 mod runlib;
 mod scn;
 
-use scrut::verif_sim::scenario::*;
+use std::collections::BTreeMap;
+use std::sync::Arc;
+
+use driver::*;
+use oracle::Violation;
 use scn::*;
 
+const DEFAULT_SEED: u64 = 20261001;
+
+fn usage() -> ! {
+    eprintln!(
+        "usage: vsim check <C05|C12|C13|C14|C15|C18|C20> <quick|thorough>\n       vsim replay <file>\n       vsim selftest determinism [n]\n       vsim lanes <property> <tier>   (list)\n       vsim show <lane-substring> <property> <tier>"
+    );
+    std::process::exit(2);
+}
+
+fn seed() -> u64 {
+    std::env::var("VERIF_SEED")
+        .ok()
+        .and_then(|s| s.trim().parse::<u64>().ok())
+        .unwrap_or(DEFAULT_SEED)
+}
+
+fn threads() -> usize {
+    std::env::var("VSIM_THREADS")
+        .ok()
+        .and_then(|s| s.parse().ok())
+        .unwrap_or_else(|| std::thread::available_parallelism().map(|n| n.get()).unwrap_or(8))
+}
+
 fn main() {
+    // panics inside scrut (and the simulator's own stop signal) are observations: keep stderr quiet
+    std::panic::set_hook(Box::new(|info| {
+        if std::env::var("VSIM_PANIC_TRACE").is_ok() {
+            eprintln!("panic: {}", info);
+        }
+    }));
     let args: Vec<String> = std::env::args().collect();
     match args.get(1).map(|s| s.as_str()) {
-        Some("smoke") => smoke(),
-        _ => {
-            eprintln!("usage: vsim smoke");
-            std::process::exit(2);
+        Some("check") => {
+            let prop = args.get(2).cloned().unwrap_or_else(|| usage());
+            let tier = args
+                .get(3)
+                .cloned()
+                .or_else(|| std::env::var("VERIF_TIER").ok())
+                .unwrap_or_else(|| "quick".into());
+            std::process::exit(check(&prop, &tier));
         }
+        Some("replay") => {
+            let f = args.get(2).cloned().unwrap_or_else(|| usage());
+            std::process::exit(replay(&f));
+        }
+        Some("selftest") => {
+            let n = args.get(3).and_then(|s| s.parse().ok()).unwrap_or(300);
+            std::process::exit(selftest_determinism(n));
+        }
+        Some("lanes") => {
+            let prop = args.get(2).cloned().unwrap_or_else(|| usage());
+            let tier = args.get(3).cloned().unwrap_or_else(|| "quick".into());
+            let l = lanes_for(&prop, &tier, seed());
+            let mut by: BTreeMap<String, usize> = BTreeMap::new();
+            for s in &l {
+                *by.entry(format!("{:?}/{}", s.tier, s.lane.split('/').next().unwrap_or(""))).or_insert(0) += 1;
+            }
+            for (k, v) in by {
+                println!("{:6} {}", v, k);
+            }
+        }
+        Some("show") => {
+            let pat = args.get(2).cloned().unwrap_or_else(|| usage());
+            let prop = args.get(3).cloned().unwrap_or_else(|| "C05".into());
+            let tier = args.get(4).cloned().unwrap_or_else(|| "quick".into());
+            let l = lanes_for(&prop, &tier, seed());
+            let Some(sc) = l.iter().find(|s| s.lane.contains(&pat)) else {
+                eprintln!("no lane matches");
+                std::process::exit(2);
+            };
+            let obs = run_scenario(sc);
+            println!("{}", serde_json::to_string_pretty(sc).unwrap());
+            for e in &obs.log {
+                let s = serde_json::to_string(e).unwrap();
+                println!("{}", &s[..s.len().min(300)]);
+            }
+            println!("{}", serde_json::to_string_pretty(&obs.docs).unwrap());
+            println!(
+                "exit={:?} sig={:?} abort={:?} panic={:?} herr={:?}\nstderr: {}",
+                obs.exit_status, obs.exit_signal, obs.sim_abort, obs.panic, obs.harness_error, obs.stderr
+            );
+            let (v, facts, js) = oracle::judge(sc, &obs);
+            println!("delivered: {:?}", facts.delivered);
+            for j in &js {
+                println!("judgement: stop={:?} run_fail={} must_fail={} may_fail={}", j.stop, j.run_fail, j.must_fail, j.may_fail);
+                for t in &j.tests {
+                    println!("  {} pid={:?} allowed={:?} must_run={:?} exact={} why={}", t.nonce, t.pid, t.allowed, t.must_run, t.exact, t.why);
+                }
+            }
+            for x in v {
+                println!("VIOL {} {} {}", x.property, x.class, x.detail);
+            }
+        }
+        _ => usage(),
     }
 }
 
-fn smoke() {
-    let mut sim = SimScenario::default();
-    sim.seed = 1;
-    let n1 = "aaaaaaaaaaa1".to_string();
-    let n2 = "aaaaaaaaaaa2".to_string();
-    sim.programs.insert(
-        n1.clone(),
-        vec![
-            Op::Out { fd: 1, data: "hello\n".into() },
-            Op::Out { fd: 2, data: "err\n".into() },
-            Op::Sleep { ns: 3_000_000_000 },
-            Op::Status { code: 0 },
-        ],
-    );
-    sim.programs.insert(n2.clone(), vec![Op::Out { fd: 1, data: "two\n".into() }, Op::Status { code: 3 }]);
-    let mk = |n: &str, exp: &str, code: Option<i32>, to: Option<u64>| Test {
-        nonce: n.to_string(),
-        title: format!("t {}", n),
-        expr: format!("vsim @vs:{}@ payload @ve:{}@", n, n),
-        expected_code: code,
-        expectations: vec![exp.to_string()],
-        expect_match: true,
-        cfg: TestCfg { timeout_ns: to, ..Default::default() },
-    };
-    let sc = Scenario {
-        lane: "smoke".into(),
-        tier: Tier::Lib,
-        script_mode: std::env::var("SCRIPT").is_ok(),
-        docs: vec![Doc {
-            path: "smoke.md".into(),
-            format: Format::Md,
-            total_timeout_ns: Some(1_000_000_000),
-            defaults: Default::default(),
-            prepend: vec![],
-            append: vec![],
-            tests: vec![mk(&n1, "hello", None, if std::env::var("SCRIPT").is_ok() {None} else {Some(5_000_000_000)}), mk(&n2, "two", Some(3), None)],
-            main: true,
-            raw: None,
-        }],
-        cli: Default::default(),
-        sim,
-        check: vec![],
-    };
-    let obs = runlib::run_lib(&sc);
-    for e in &obs.log {
-        println!("{}", serde_json::to_string(e).unwrap());
+/// Which scenarios decide a property. Quick = systematic lanes + a small random lane;
+/// thorough = the same plus large random lanes.
+pub fn lanes_for(prop: &str, tier: &str, seed: u64) -> Vec<Scenario> {
+    let thorough = tier == "thorough";
+    let mut v: Vec<Scenario> = vec![];
+    let n_rand_lib = if thorough { 400_000 } else { 6_000 };
+    let n_rand_cli = if thorough { 30_000 } else { 500 };
+    match prop {
+        "C05" => {
+            v.extend(gen::lane_fates(Tier::Lib, seed));
+            v.extend(gen::lane_faults(Tier::Lib, seed));
+            v.extend(gen_cli::lane_cli_fates(seed, if thorough { 1 } else { 4 }));
+            v.extend(gen_cli::lane_random(Tier::Lib, seed, n_rand_lib, "C05"));
+            v.extend(gen_cli::lane_random(Tier::Cli, seed, n_rand_cli, "C05"));
+        }
+        "C12" => {
+            v.extend(gen::lane_fates(Tier::Lib, seed).into_iter().filter(|s| !s.script_mode));
+            v.extend(gen::lane_faults(Tier::Lib, seed).into_iter().filter(|s| !s.script_mode));
+            v.extend(gen_cli::lane_state(seed, if thorough { 20_000 } else { 1_500 }));
+            v.extend(gen_cli::lane_random(Tier::Cli, seed, n_rand_cli / 2, "C12"));
+        }
+        "C13" => {
+            v.extend(gen::lane_bytes(seed));
+            v.extend(gen::lane_fates(Tier::Lib, seed));
+            v.extend(gen_cli::lane_random(Tier::Lib, seed, n_rand_lib, "C13"));
+            v.extend(gen_cli::lane_cli_bytes(seed, if thorough { 400 } else { 40 }));
+        }
+        "C14" => {
+            v.extend(gen::lane_timing(Tier::Lib, seed));
+            v.extend(gen_cli::lane_cli_timing(seed, if thorough { 1 } else { 6 }));
+            v.extend(gen_cli::lane_random(Tier::Lib, seed, n_rand_lib, "C14"));
+            v.extend(gen_cli::lane_random(Tier::Cli, seed, n_rand_cli, "C14"));
+        }
+        "C15" => {
+            v.extend(gen::lane_fates(Tier::Lib, seed));
+            v.extend(gen_cli::lane_skip(seed));
+            v.extend(gen_cli::lane_random(Tier::Lib, seed, n_rand_lib, "C15"));
+            v.extend(gen_cli::lane_random(Tier::Cli, seed, n_rand_cli, "C15"));
+        }
+        "C18" => {
+            v.extend(gen_cli::lane_env(seed));
+            v.extend(gen_cli::lane_cli_fates(seed, if thorough { 1 } else { 6 }));
+            v.extend(gen_cli::lane_random(Tier::Cli, seed, n_rand_cli * 2, "C18"));
+        }
+        "C20" => {
+            v.extend(gen_cli::lane_runs(seed));
+            v.extend(gen_cli::lane_cli_fates(seed, if thorough { 1 } else { 4 }));
+            v.extend(gen::lane_fates(Tier::Lib, seed));
+            v.extend(gen_cli::lane_random(Tier::Cli, seed, n_rand_cli * 2, "C20"));
+        }
+        _ => {
+            eprintln!("vsim: no check for property {}", prop);
+            std::process::exit(2);
+        }
     }
-    println!("{}", serde_json::to_string_pretty(&obs.docs).unwrap());
-    println!("abort={:?} panic={:?} fs_after={:?} herr={:?}", obs.sim_abort, obs.panic, obs.fs_after, obs.harness_error);
+    v
+}
+
+fn check(prop: &str, tier: &str) -> i32 {
+    let t0 = wall();
+    let seed = seed();
+    println!("vsim: property={} tier={} VERIF_SEED={} threads={}", prop, tier, seed, threads());
+    let known = known::load();
+    let scenarios = Arc::new(lanes_for(prop, tier, seed));
+    println!("vsim: {} scenarios", scenarios.len());
+    let (outcomes, mut stats) = run_batch(scenarios.clone(), threads(), 3);
+
+    // the real-bash tier (C12 carrier, C13 stub conformance)
+    let mut real_report = None;
+    if prop == "C12" || prop == "C13" {
+        let r = real::run_real(prop, tier, seed, threads(), &known);
+        real_report = Some(r);
+    }
+
+    let mut harness_errors: Vec<String> = vec![];
+    let mut known_hits: BTreeMap<String, (u64, String)> = BTreeMap::new();
+    let mut fresh: Vec<(usize, Violation)> = vec![];
+    for o in &outcomes {
+        if let Some(e) = &o.harness_error {
+            harness_errors.push(format!("[{}] {}", scenarios[o.idx].lane, e));
+            continue;
+        }
+        for v in &o.violations {
+            if v.property != prop {
+                continue;
+            }
+            match known::matching(&known, &scenarios[o.idx], v) {
+                Some(f) => {
+                    let e = known_hits.entry(f.id.clone()).or_insert((0, f.what.clone()));
+                    e.0 += 1;
+                }
+                None => fresh.push((o.idx, v.clone())),
+            }
+        }
+    }
+    if let Some(r) = &real_report {
+        harness_errors.extend(r.harness_errors.clone());
+        for (id, (n, what)) in &r.known_hits {
+            let e = known_hits.entry(id.clone()).or_insert((0, what.clone()));
+            e.0 += n;
+        }
+    }
+    let mut exit = 0;
+    if !harness_errors.is_empty() {
+        for e in harness_errors.iter().take(10) {
+            println!("HARNESS-ERROR: {}", e);
+        }
+        println!("vsim: {} harness error(s); nothing is reported as a violation from a run that cannot be judged", harness_errors.len());
+        exit = 2;
+    }
+    // one replay file per violation class
+    let mut by_class: BTreeMap<String, Vec<(usize, Violation)>> = BTreeMap::new();
+    for (i, v) in fresh {
+        by_class.entry(v.class.clone()).or_default().push((i, v));
+    }
+    let mut n_viol = 0;
+    let _ = std::fs::create_dir_all("/verif/replays");
+    for (class, items) in &by_class {
+        let (idx, v) = &items[0];
+        println!("vsim: {} x {}/{} - first in lane {}: {}", items.len(), prop, class, scenarios[*idx].lane, v.detail);
+        let is_fresh = |sc: &Scenario| -> bool {
+            let obs = run_scenario(sc);
+            if obs.harness_error.is_some() {
+                return false;
+            }
+            let (viol, _, _) = oracle::judge(sc, &obs);
+            viol.iter()
+                .any(|x| x.property == prop && &x.class == class && known::matching(&known, sc, x).is_none())
+        };
+        let min = minimise_with(&scenarios[*idx], &is_fresh, if tier == "thorough" { 400 } else { 150 });
+        let rf = ReplayFile {
+            property: prop.to_string(),
+            class: class.clone(),
+            detail: v.detail.clone(),
+            scenario: min,
+        };
+        let text = serde_json::to_string_pretty(&rf).unwrap();
+        let h = fnv(text.as_bytes());
+        let path = format!("/verif/replays/{}-{}-{:08x}.json", prop, class, h as u32);
+        if let Err(e) = std::fs::write(&path, &text) {
+            println!("HARNESS-ERROR: cannot write {}: {}", path, e);
+            exit = 2;
+            continue;
+        }
+        // replay in a fresh process; only a reproducing failure is reported
+        let me = std::env::current_exe().unwrap();
+        let out = std::process::Command::new(me).arg("replay").arg(&path).output();
+        match out {
+            Ok(o) if o.status.code() == Some(1) => {
+                println!("VIOLATION property={} replay={}", prop, path);
+                n_viol += 1;
+            }
+            Ok(o) => {
+                println!(
+                    "HARNESS-ERROR: violation {}/{} did not reproduce from {} (replay exit {:?}): {}",
+                    prop,
+                    class,
+                    path,
+                    o.status.code(),
+                    String::from_utf8_lossy(&o.stdout)
+                );
+                exit = 2;
+            }
+            Err(e) => {
+                println!("HARNESS-ERROR: cannot run replay: {}", e);
+                exit = 2;
+            }
+        }
+    }
+    if let Some(r) = &real_report {
+        for p in &r.violation_replays {
+            println!("VIOLATION property={} replay={}", prop, p);
+            n_viol += 1;
+        }
+    }
+    for (id, (n, what)) in &known_hits {
+        println!("KNOWN-FINDING: property={} [{}] {} ({} occurrence(s) in this run)", prop, id, what, n);
+    }
+    if n_viol > 0 {
+        exit = 1.max(exit);
+        if exit == 2 {
+            exit = 1;
+        }
+    }
+    // evidence
+    if let Some(r) = &real_report {
+        stats.runs += r.runs;
+        stats.nontrivial += r.runs;
+        stats.signatures.extend(r.signatures.iter().cloned());
+        stats.samples.extend(r.samples.iter().cloned());
+        *stats.by_tier.entry("Real".into()).or_insert(0) += r.runs;
+    }
+    write_evidence(prop, tier, seed, &stats, n_viol, known_hits.len(), t0.elapsed().as_secs_f64(), &real_report);
+    println!(
+        "vsim: {} runs ({:?}), {} distinct signatures, simulated time {:.1} h, {} violation class(es), {} known finding(s), {:.1}s",
+        stats.runs,
+        stats.by_tier,
+        stats.signatures.len(),
+        stats.sim_time_ns as f64 / 3.6e12,
+        n_viol,
+        known_hits.len(),
+        t0.elapsed().as_secs_f64()
+    );
+    exit
+}
+
+fn minimise_with(sc: &Scenario, keep: &dyn Fn(&Scenario) -> bool, budget: usize) -> Scenario {
+    let mut best = sc.clone();
+    let obs = run_scenario(&best);
+    let mut pinned = best.clone();
+    pinned.sim.tape = Some(obs.tape.clone());
+    let mut used = 2;
+    if keep(&pinned) {
+        best = pinned;
+    }
+    let mut progress = true;
+    while progress && used < budget {
+        progress = false;
+        for c in driver::candidates_pub(&best) {
+            if used >= budget {
+                break;
+            }
+            used += 1;
+            if keep(&c) {
+                best = c;
+                progress = true;
+                break;
+            }
+        }
+    }
+    best
+}
+
+fn fnv(b: &[u8]) -> u64 {
+    let mut h = 0xcbf29ce484222325u64;
+    for c in b {
+        h ^= *c as u64;
+        h = h.wrapping_mul(0x100000001b3);
+    }
+    h
+}
+
+fn replay(path: &str) -> i32 {
+    let text = match std::fs::read_to_string(path) {
+        Ok(t) => t,
+        Err(e) => {
+            eprintln!("vsim: {}: {}", path, e);
+            return 2;
+        }
+    };
+    if text.contains("\"real_history\"") {
+        return real::replay_real(path, &text);
+    }
+    let rf: ReplayFile = match serde_json::from_str(&text) {
+        Ok(r) => r,
+        Err(e) => {
+            eprintln!("vsim: {}: {}", path, e);
+            return 2;
+        }
+    };
+    let obs1 = run_scenario(&rf.scenario);
+    let obs2 = run_scenario(&rf.scenario);
+    if normalised_log(&obs1) != normalised_log(&obs2) {
+        println!("vsim: replay is not deterministic (two runs of {} differ)", path);
+        return 2;
+    }
+    if let Some(e) = &obs1.harness_error {
+        println!("vsim: harness error: {}", e);
+        return 2;
+    }
+    let (viol, _, _) = oracle::judge(&rf.scenario, &obs1);
+    let mut hit = false;
+    for v in &viol {
+        if v.property == rf.property && v.class == rf.class {
+            hit = true;
+            println!("violation {}/{}: {}", v.property, v.class, v.detail);
+        }
+    }
+    if std::env::var("VSIM_VERBOSE").is_ok() {
+        for e in &obs1.log {
+            let s = serde_json::to_string(e).unwrap();
+            println!("{}", &s[..s.len().min(400)]);
+        }
+        println!("{}", serde_json::to_string_pretty(&obs1.docs).unwrap());
+    }
+    if hit {
+        println!("VIOLATION property={} replay={}", rf.property, path);
+        1
+    } else {
+        println!("vsim: {} does not reproduce {}/{} on this tree", path, rf.property, rf.class);
+        0
+    }
+}
+
+fn selftest_determinism(n: usize) -> i32 {
+    let seed = seed();
+    let mut all: Vec<Scenario> = vec![];
+    for p in ["C05", "C13", "C14", "C18", "C20"] {
+        let l = lanes_for(p, "quick", seed);
+        let step = (l.len() / n.max(1)).max(1);
+        all.extend(l.into_iter().step_by(step));
+    }
+    println!("vsim: determinism self-test over {} scenarios, each run twice on different workers", all.len());
+    let scenarios = Arc::new(all);
+    let run = |threads: usize| -> Vec<String> {
+        let next = Arc::new(std::sync::atomic::AtomicUsize::new(0));
+        let out = Arc::new(std::sync::Mutex::new(vec![String::new(); scenarios.len()]));
+        let mut hs = vec![];
+        for _ in 0..threads {
+            let scenarios = scenarios.clone();
+            let next = next.clone();
+            let out = out.clone();
+            hs.push(
+                std::thread::Builder::new()
+                    .stack_size(1 << 30)
+                    .spawn(move || loop {
+                        let i = next.fetch_add(1, std::sync::atomic::Ordering::SeqCst);
+                        if i >= scenarios.len() {
+                            break;
+                        }
+                        let obs = run_scenario(&scenarios[i]);
+                        let s = normalised_log(&obs);
+                        out.lock().unwrap()[i] = s;
+                    })
+                    .unwrap(),
+            );
+        }
+        for h in hs {
+            let _ = h.join();
+        }
+        Arc::try_unwrap(out).ok().unwrap().into_inner().unwrap()
+    };
+    let a = run(4);
+    let b = run(threads());
+    let mut bad = 0;
+    for i in 0..a.len() {
+        if a[i] != b[i] {
+            bad += 1;
+            if bad <= 3 {
+                println!("NON-DETERMINISTIC: lane {}", scenarios[i].lane);
+                for (la, lb) in a[i].lines().zip(b[i].lines()) {
+                    if la != lb {
+                        println!("  run1: {}\n  run2: {}", &la[..la.len().min(300)], &lb[..lb.len().min(300)]);
+                        break;
+                    }
+                }
+            }
+        }
+    }
+    println!("vsim: {} of {} scenarios differ between two runs", bad, a.len());
+    if bad > 0 { 2 } else { 0 }
+}
+
+#[allow(clippy::too_many_arguments)]
+fn write_evidence(
+    prop: &str,
+    tier: &str,
+    seed: u64,
+    st: &Stats,
+    violations: usize,
+    known: usize,
+    wall_s: f64,
+    real: &Option<real::RealReport>,
+) {
+    let _ = std::fs::create_dir_all("/verif/evidence");
+    let runs_per_hour = if wall_s > 0.0 { st.runs as f64 / wall_s * 3600.0 } else { 0.0 };
+    let components = serde_json::json!({
+        "real code": ["StatefulExecutor", "BashScriptExecutor", "BashRunner (template substitution)", "SubprocessRunner", "TestCase::validate / render_output", "DiffTool", "config merge",
+            "Cli tier additionally: main(), `scrut test` command, FileParser, Markdown/Cram parsers, TestEnvironment, renderers",
+            "temp / state / work directories on the real filesystem"],
+        "stub": ["subprocess crate (spawn, pipes, poll loop = transcription of 0.2.15, deadline, wait)", "kernel pipes and process table", "bash and the body of bash_runner.template (front-end reads two anchors)", "Instant / sleep (virtual clock)"],
+        "real tier (C12 carrier, C13 conformance only)": "real bash processes through the pass-through seam; strictly sequential"
+    });
+    let mut coverage = serde_json::json!({
+        "evaluations": st.runs,
+        "distinct_nontrivial": st.signatures.len(),
+        "rule": "one evaluation = one simulated run of scrut (scenario + decision tape = one exactly repeatable execution). Scenarios come from systematic lanes (small cross products enumerated completely) and seeded random swarm lanes. A run is non-trivial if at least one child process was spawned (or a spawn was refused); runs are distinct by signature = (tier, execution mode, per document: stop reason, per test: program fate / report obtained / how communication ended, fault kinds fired, exit status).",
+        "samples": st.samples,
+        "exhaustive": false,
+        "runs_by_tier": st.by_tier,
+        "runs_by_lane": st.lanes,
+        "runs_per_hour": runs_per_hour as u64,
+        "simulated_time_hours": st.sim_time_ns as f64 / 3.6e12,
+        "events_processed": st.events,
+        "children_spawned": st.spawns,
+        "fault_kinds_fired": st.fault_fired,
+        "reach_probes": st.probes,
+        "components": components,
+        "known_findings_hit": known,
+    });
+    if let Some(r) = real {
+        coverage["real_tier"] = r.coverage.clone();
+    }
+    let ev = serde_json::json!({
+        "property_id": prop,
+        "tier": if tier == "thorough" { "thorough" } else { "quick" },
+        "seed": seed,
+        "level": "exploration",
+        "coverage": coverage,
+        "assumptions": [
+            "the simulated poll/pipe semantics (Linux pipe_poll, PIPE_BUF atomic writes) and the transcription of subprocess 0.2.15's communicate loop are faithful",
+            "the simulated shell reads only two anchors of bash_runner.template (state path, persist flag) and the divider echo lines of the compiled script; bash itself is not simulated",
+            "expectation acceptance is decided by construction (exact lines => accept, one perturbed line => reject), inside the envelope where the diff is an iff",
+            "a clean batch is evidence, not proof: seeded sampling plus small exhaustive lanes"
+        ],
+        "wall_s": wall_s,
+        "violations": violations,
+    });
+    let path = format!("/verif/evidence/{}.json", prop);
+    let _ = std::fs::write(&path, serde_json::to_string_pretty(&ev).unwrap());
 }
